@@ -264,7 +264,7 @@ class Parser(object):
         tuple_pairs : tuple_pair COMMA tuple_pairs
         """
 
-        p[0] = dict(list(p[3].items()) + [p[1]])
+        p[0] = dict([p[1]] + list(p[3].items()))
 
     def p_tuple_pairs_pair(self, p):
         """
